@@ -549,6 +549,13 @@ impl Match {
                         length
                     )));
                 }
+                // the long form of the variable-length encoding holds (length - 34 - 32768) in 30 bits
+                if (*length as u64) >= MIN_FAR2_LONG_LENGTH as u64 + 32768 + (1u64 << 30) {
+                    return Err(ZiporaError::invalid_data(format!(
+                        "Far3Long length {} exceeds the encodable range",
+                        length
+                    )));
+                }
             }
         }
 
